@@ -777,11 +777,12 @@ func rowsOnlyHistory(r *RNG, cfg string, tables []*hTable, maxRows int) *hist {
 	for u, nu := 0, r.Range(1, 4); u < nu; u++ {
 		ts++
 		unit := hUnit{kind: "tx", ts: ts, begin: "BEGIN", closer: fmt.Sprintf("x%d", u)}
-		seen := map[int]bool{}
+		last := map[uint64]int{} // table id -> index of the definition announced last in this transaction
 		for k := r.Range(1, 3); k > 0; k-- {
 			ti := r.Intn(len(tables))
-			unit.changes = append(unit.changes, hChange{rows: genRows(r, h, o, ti, ts, !seen[ti] || r.Bool())})
-			seen[ti] = true
+			prev, was := last[tables[ti].id]
+			unit.changes = append(unit.changes, hChange{rows: genRows(r, h, o, ti, ts, !was || prev != ti || r.Bool())})
+			last[tables[ti].id] = ti
 		}
 		h.units = append(h.units, unit)
 	}
@@ -848,6 +849,26 @@ var extraC13 = histExtra("strings-end-to-end", "strings-end-to-end", 150, 3000, 
 			t.cols = append(t.cols, k)
 		}
 		ts = append(ts, t)
+		// the same table announced again with other declared lengths (an ALTER ... MODIFY that kept the id): the
+		// prefix width of every string cell follows the most recent table map
+		if r.Chance(1, 3) {
+			v := &hTable{id: t.id, db: t.db, name: t.name}
+			for _, c := range t.cols {
+				switch c.typ {
+				case 15:
+					c.md = r.Pick(20, 255, 256, 300, 70)
+				case 253:
+					c.md = r.Pick(100, 255, 256, 1000)
+				case 252, 255:
+					c.md = r.Range(1, 4)
+				case 254:
+					l := r.Pick(10, 255, 256, 300)
+					c.md = ((254 ^ ((l & 0x300) >> 4)) << 8) | (l & 0xff)
+				}
+				v.cols = append(v.cols, c)
+			}
+			ts = append(ts, v)
+		}
 	}
 	return rowsOnlyHistory(r, cfg, ts, 3)
 })
